@@ -851,6 +851,22 @@ func c24gen(r *rand.Rand, tier string, emit func(string)) {
 		}
 		srcOp("mut.go", mut, 1-i%5/4)
 	}
+	// 6b. statement-level mutations of VALID programs: one expression turned into an expression LIST in front of
+	// an operator / delimiter that requires a single expression (`a, zz++`, `c, zz <- v`, `L, zz:`, `if x, zz {`,
+	// `f(x), zz`), or an identifier duplicated into a list; exactly one mutation, so no other syntax error
+	for i := 0; i < 700*scale; i++ {
+		var base []byte
+		if i%4 != 0 {
+			base = []byte(c24genFile(r, 1+r.Intn(4), 2+r.Intn(2), false))
+		} else {
+			b, err := c23read("goroot", gl[r.Intn(len(gl))])
+			if err != nil || len(b) == 0 || len(b) > 12000 {
+				continue
+			}
+			base = b
+		}
+		srcOp("list.go", c24mutList(r, base), 1-i%5/4)
+	}
 	// 7. small erroneous inputs, hand-picked shapes x contexts
 	bad := []string{"", "package", "package p; x := 1", "package p; func", "package p; func f( {}", "package p; var x = ", "package p; type T struct { a int b int }",
 		"package p; func f() { if x { } else }", "package p; func f() { for i := range }", "package p; func f() { x = = 1 }", "package p; import x", "package p; const ( a = iota; b",
@@ -860,11 +876,75 @@ func c24gen(r *rand.Rand, tier string, emit func(string)) {
 		"package p; var x = [3]int{1,2,3}[:]", "package p; func f() (a, b int, c) {}", "package p; func f(a, b int, c) {}", "package p; func f(...int, x int) {}", "package p; type T struct { *int; T.x }",
 		"package p; func f() { for ;; ; {} }", "package p; func f() { if x := 1 {} }", "package p; func f() { if ; {} }", "package p; var _ = func() {} ()", "package p; var _ = (x)", "package p; var _ = x.(type)",
 		"package p; func f() { select { case x: } }", "package p; func f() { switch x.(type) { case 1+2: } }", "package p; func f() { break 1 }", "package p; func f() { goto }", "package p\nimport \"a\"\nvar x int\nimport \"b\"\n",
-		"package p; func f() { x := T{a: 1, 2} }", "package p; var x = <-chan int(nil)", "package p; var x chan<- <-chan int", "package p; var x = <-<-c", "package p; var x <-chan<- int", "package _; var x int", "package p; func f() { _ = a = b }"}
+		"package p; func f() { x := T{a: 1, 2} }", "package p; var x = <-chan int(nil)", "package p; var x chan<- <-chan int", "package p; var x = <-<-c", "package p; var x <-chan<- int", "package _; var x int", "package p; func f() { _ = a = b }",
+		"package p; func f() { a, b++ }", "package p; func f() { a, b-- }", "package p; func f() { c1, c2 <- 1 }", "package p; func f() { a, b: for {} }", "package p; func f() { a, b }",
+		"package p; func f() { if a, b {} }", "package p; func f() { for a, b {} }", "package p; func f() { switch a, b {} }", "package p; func f() { go f(), g() }", "package p; func f() { defer f(), g() }",
+		"package p; func f() { for a, b; ; {} }", "package p; func f() { switch x := a, b; x {} }", "package p; func f() { select { case a, b <- c: } }", "package p; func f() { a, b.c++ }", "package p; func f() { (a, b)++ }",
+		"package p; func f() { if g := func() T { return T{1} }; g().x > 0 {} }", "package p; func f() { switch func() pkg.T { return pkg.T{} }().x {} }", "package p; func f() { for i := range func() []T { return []T{T{}} }() {} }",
+		"package p; func f() { for f := func() T { return T{} }; ; {} }", "package p; func f() { if (T{}) == x {} }", "package p; func f() { if x == T{} {} }", "package p; func f() { if f(T{}) {} }", "package p; func f() { if a[T{}.i] {} }",
+		"package p; func f() { if []T{T{}}[0] == x {} }", "package p; func f() { switch x := (T{}); x {} }", "package p; func f() { if x := struct{ a int }{1}; x.a > 0 {} }"}
 	for _, b := range bad {
 		srcOp("bad.go", []byte(b), 1)
 		srcOp("bad.go", []byte(strings.ReplaceAll(b, "; ", "\n")), 0)
 	}
+}
+
+// c24mutList applies ONE statement-level mutation that produces an expression list where a single expression is
+// required (or duplicates an identifier into a list).
+func c24mutList(r *rand.Rand, b []byte) []byte {
+	fset := token.NewFileSet()
+	f := fset.AddFile("", -1, len(b))
+	var s goscanner.Scanner
+	s.Init(f, b, func(token.Position, string) {}, 0)
+	byKind := map[token.Token][]int{} // offsets in front of which ", zz" is inserted
+	var idents [][2]int
+	depth := 0 // brace depth: only inside function bodies / composite literals
+	for {
+		pos, tok, lit := s.Scan()
+		if tok == token.EOF {
+			break
+		}
+		off := f.Offset(pos)
+		switch tok {
+		case token.LBRACE:
+			if depth > 0 {
+				byKind[tok] = append(byKind[tok], off)
+			}
+			depth++
+		case token.RBRACE:
+			depth--
+		case token.INC, token.DEC, token.ARROW, token.COLON, token.SEMICOLON, token.RPAREN, token.RBRACK,
+			token.ASSIGN, token.ADD_ASSIGN, token.DEFINE:
+			if depth > 0 && off > 0 {
+				byKind[tok] = append(byKind[tok], off)
+			}
+		case token.IDENT:
+			if depth > 0 && lit != "_" {
+				idents = append(idents, [2]int{off, off + len(lit)})
+			}
+		}
+	}
+	ins := []string{", zz", ", zz, yy", ",zz"}[r.Intn(3)]
+	var kinds []token.Token
+	for _, k := range []token.Token{token.INC, token.DEC, token.ARROW, token.COLON, token.LBRACE, token.SEMICOLON, token.RPAREN, token.RBRACK, token.ASSIGN, token.ADD_ASSIGN, token.DEFINE} {
+		if len(byKind[k]) > 0 {
+			kinds = append(kinds, k)
+		}
+	}
+	if len(kinds) > 0 && (len(idents) == 0 || r.Intn(5) != 0) {
+		k := kinds[r.Intn(len(kinds))] // the kind first: rare operators are as likely as frequent ones
+		off := byKind[k][r.Intn(len(byKind[k]))]
+		// step back over white space so that the list ends where the expression ended
+		for off > 0 && (b[off-1] == ' ' || b[off-1] == '\t') {
+			off--
+		}
+		return append(append(append([]byte(nil), b[:off]...), ins...), b[off:]...)
+	}
+	if len(idents) > 0 {
+		id := idents[r.Intn(len(idents))]
+		return append(append(append([]byte(nil), b[:id[1]]...), ins...), b[id[1]:]...)
+	}
+	return b
 }
 
 // ---------------------------------------------------------------- execution
